@@ -7,6 +7,7 @@ import (
 	"github.com/paulmach/orb/geo"
 
 	"verif/internal/h"
+	"verif/internal/refmodel"
 )
 
 // C18 — spherical measures are symmetric, mutually inverse and match closed forms.
@@ -245,7 +246,7 @@ func init() {
 					}
 					c.Evals(3)
 					// a bound is measured as its ring (the four sides are not pairwise equal on the sphere)
-					br := box.ToRing()
+					br := refmodel.BoundRing(box)
 					bE, bH := 0.0, 0.0
 					for i := 1; i < len(br); i++ {
 						bE += geo.Distance(br[i-1], br[i])
@@ -347,6 +348,24 @@ func init() {
 						return t
 					}
 					ls := orb.LineString(open)
+					if r.P(1, 3) {
+						// a densified straight run: vertices exactly collinear in lon/lat (integer steps), along a parallel,
+						// a meridian or a diagonal, forwards and sometimes back over itself
+						st := orb.Point{float64(r.Range(-60, 60)), float64(r.Range(-60, 60))}
+						dx, dy := float64(r.Range(-2, 2)), float64(r.Range(-2, 2))
+						if dx == 0 && dy == 0 {
+							dx = 1
+						}
+						ls = orb.LineString{st}
+						for i, k := 1, r.Range(2, 9); i <= k; i++ {
+							ls = append(ls, orb.Point{st[0] + float64(i)*dx, st[1] + float64(i)*dy})
+						}
+						if r.P(1, 4) {
+							ls = append(ls, orb.Point{st[0] + dx, st[1] + dy})
+						}
+						ls = append(ls, open[0])
+						c.Count("densified_straight_runs", 1)
+					}
 					other := orb.LineString{{float64(r.Range(-170, 170)), 0}, {float64(r.Range(-170, 170)), float64(r.Range(-80, 80))}, {r.Uniform(-170, 170), r.Uniform(-80, 80)}}
 					bound := orb.Bound{Min: orb.Point{float64(r.Range(-170, 0)), float64(r.Range(-80, 0))}, Max: orb.Point{float64(r.Range(0, 170)), float64(r.Range(0, 80))}}
 					if r.Bool() {
@@ -357,7 +376,7 @@ func init() {
 						g      orb.Geometry
 						wE, wH float64
 					}
-					brE, brH := seg(bound.ToRing(), geo.Distance), seg(bound.ToRing(), geo.DistanceHaversine)
+					brE, brH := seg(refmodel.BoundRing(bound), geo.Distance), seg(refmodel.BoundRing(bound), geo.DistanceHaversine)
 					lE, lH := seg(ls, geo.Distance), seg(ls, geo.DistanceHaversine)
 					cE, cH := seg(closed, geo.Distance), seg(closed, geo.DistanceHaversine)
 					oE, oH := seg(other, geo.Distance), seg(other, geo.DistanceHaversine)
